@@ -133,6 +133,11 @@ def gen_cases(rng, tier):
                 pts = [rng.choice(POOL_FINITE) for _ in range(2 * n)]
                 pts[pos] = badv
                 cases.append(("from_points", pts))
+    # structure and compute_tight_bounds of built paths and of the outputs of stroke / dash (public API, f64 reference)
+    from .geomgen import rand_path_ops
+    for i in range(1500 if tier == "quick" else 20000):
+        ops = rand_path_ops(rng, 50, 50, rng.uniform(5, 60), curves=rng.random() < 0.8, grid=rng.choice([16.0, 1.0, 256.0]))
+        cases.append(("tight_bounds", [rng.choice([0, 0, 0, 1, 2])] + ops))
     return cases
 
 
@@ -140,6 +145,20 @@ def oracle(suite, args, out):
     if out.startswith("PANIC") or out.startswith("CRASH") or out.startswith("HANG"):
         return "implementation did not return: " + out[:200]
     o = ints(out)
+    if suite == "tight_bounds":
+        if len(o) >= 5 and o[0] == 0:
+            what = ["the path", "the stroked path", "the dashed path"][args[0] % 3]
+            if o[1] != 0:
+                return "%s breaks a structural guarantee (%s)" % (what, {1: "fewer than two verbs", 2: "does not start with Move", 3: "two consecutive Moves",
+                        4: "two consecutive Closes", 5: "a non-Move verb follows Close", 6: "point count does not match the verbs", 7: "non-finite point",
+                        8: "bounds() is not the bounding box of the points", 9: "segments() does not replay the verbs"}.get(o[1], str(o[1])))
+            if o[2] == 1:
+                return "compute_tight_bounds of %s is not within bounds()" % what
+            if o[2] == 2:
+                return "compute_tight_bounds of %s is %.3f where the true extent of the curves is %.3f" % (what, o[3] / 1000.0, o[4] / 1000.0)
+            if o[2] == 3:
+                return "compute_tight_bounds of %s returned None" % what
+        return None
     if suite == "from_points":
         if o == [-1]:
             # None is required exactly when there is no point, a non-finite coordinate, or an overflowing extent
@@ -199,6 +218,8 @@ def canon(out):
 def relation(suite, args, mo, io):
     if mo == io:
         return True
+    if suite == "tight_bounds":
+        return mo.strip() == "-9"
     # the sign of a zero bound is unspecified by f32::min/max: compare bounds up to -0 == +0
     a, b = mo.split(), io.split()
     if len(a) != len(b) or len(a) < 4 or a[:-4] != b[:-4]:
@@ -212,6 +233,8 @@ def nontrivial_tag(suite, args, out):
         return None
     if suite == "from_points":
         return "from_points:some:%d" % (len(args) // 2)
+    if suite == "tight_bounds":
+        return "tight:%d" % (args[0] % 3) if out.startswith("0 ") else None
     o = ints(out) if out and out[0].isdigit() else None
     if not o:
         return None
